@@ -197,6 +197,21 @@ class Segment(CoreSummaries, Contract):
                 return z3.Length(ret) == 0
             cl.append(Clause('C03.coroutine_suspends_on_what_it_has_just_emitted', ['C03', 'C02'], fn=awaited_at_yield, when='yield',
                              note='a coroutine that emits and then awaits something else (or nothing) does not wait for its consumers'))
+        if getattr(self, 'method', None) == 'update' and getattr(self, 'start', 0) == 0 and getattr(self, 'cls', None):
+            # update() of a node is called by the emitter's _emit loop, which only collects what it returns.  A Tornado coroutine
+            # (and a plain function) runs its first segment -- buffering the element, retaining its references, reserving a slot,
+            # arming a timer -- inside that call.  The body of a native coroutine (async def) does not run at all until somebody awaits
+            # the returned object: an emitter that does not await (collect.flush, the from_tcp handler) drops the element, and the
+            # order of arrival is no longer the order of the calls.
+            def eager(self_, I, o, fr, qual='%s.%s' % (self.cls, self.method)):
+                import ast as _ast
+                try:
+                    rel, node = I.index.function(qual)
+                except KeyError:
+                    return None
+                return z3.BoolVal(not isinstance(node, _ast.AsyncFunctionDef))
+            cl.append(Clause('C02.update_runs_its_first_segment_inside_the_call', ['C02', 'C08', 'C13', 'C01'], when='any', fn=eager,
+                             note='update must not be a native coroutine: nothing of it would run before it is awaited'))
         if getattr(self, 'method', None) == 'cb':
             # the forwarding coroutine of a node (buffer, delay, latest, timed_window, ...) is scheduled once, by the constructor
             cl.append(Clause('C02.the_forwarding_coroutine_never_exits', ['C02', 'C14', 'C13', 'C08', 'C03'], when='return_or_gen_return', text='False',
